@@ -549,6 +549,12 @@ func cmdCheck(args []string) int {
 	nObl, nDis, nCover, nCoverOK := 0, 0, 0, 0
 	bySolver := map[string]int{}
 	solverTime := 0.0
+	type slowRec struct {
+		name   string
+		secs   float64
+		solver string
+	}
+	var slow []slowRec
 	var samples []map[string]interface{}
 	var safetySamples []map[string]interface{}
 	var failed []*oblResult
@@ -593,6 +599,7 @@ func cmdCheck(args []string) int {
 		}
 		nObl++
 		solverTime += r.Res.Seconds
+		slow = append(slow, slowRec{r.O.Name, r.Res.Seconds, r.Res.Solver})
 		if r.Res.Status == "unsat" {
 			nDis++
 			bySolver[r.Res.Solver]++
@@ -700,6 +707,11 @@ func cmdCheck(args []string) int {
 	if knownHit > 0 {
 		expl += fmt.Sprintf(" %d obligation(s) fail and are recorded as known findings; they are not counted as discharged.", knownHit)
 	}
+	sort.Slice(slow, func(i, j int) bool { return slow[i].secs > slow[j].secs })
+	var slowest []string
+	for i := 0; i < len(slow) && i < 5; i++ {
+		slowest = append(slowest, fmt.Sprintf("%s: %.1fs (%s)", slow[i].name, slow[i].secs, slow[i].solver))
+	}
 	cov := map[string]interface{}{
 		"obligations":              nObl,
 		"discharged":               nDis,
@@ -709,6 +721,7 @@ func cmdCheck(args []string) int {
 		"functions_under_contract": funcsUnder,
 		"discharged_by_solver":     bySolver,
 		"solver_time_s":            round3(solverTime),
+		"slowest_obligations":      slowest,
 		"vacuity_and_cover_checks": map[string]int{"generated": nCover, "sat_as_expected": nCoverOK},
 		"known_findings_hit":       knownHit,
 		"bounded_stand_ins":        pc.Bounded,
